@@ -465,7 +465,7 @@ Proof.
     assert (Ek : (s_id callee, snd ikey) = ikey) by (rewrite Hid, Hfst; destruct ikey; reflexivity).
     exists (s_id callee), (snd ikey), (reg_id r), [("progress", VBool (opt_bool opts "progress"))].
     split; [reflexivity|]. split; [reflexivity|]. right. rewrite Ek.
-    set (lt := local_timer (opt_int64 (inv_opts inv) "timeout") callee r).
+    set (lt := local_timer (opt_int64 (inv_opts inv) "timeout") callee (inv_callee inv) r).
     exists inv, (if lt then inv_set_timer (inv_set_inprogress inv (opt_bool opts "progress")) (Some (d_timergen d + 1))
                  else inv_set_inprogress inv (opt_bool opts "progress")).
     split; [exact Hi|]. split; [exact Ecid|]. split; [apply chs_invs|].
@@ -496,7 +496,7 @@ Proof.
     exists (first_inv d (s_id caller, q) cid0 callee r opts).
     split; [apply cfs_invs|]. split; [reflexivity|]. split; [reflexivity|]. split; [reflexivity|].
     rewrite cfs_timers. unfold first_inv. cbn [inv_timer].
-    destruct (local_timer (opt_int64 opts "timeout") callee r) eqn:Hlt.
+    destruct (local_timer (opt_int64 opts "timeout") callee cid0 r) eqn:Hlt.
     + right. exists (d_timergen d + 1). split; [reflexivity|]. split.
       { destruct (nget (d_timers d) (d_timergen d + 1)) as [[dl c]|] eqn:Ht; [|reflexivity]. exfalso.
         destruct (cw_timer _ W _ _ _ Ht) as (Hle & _). lia. }
